@@ -7,6 +7,15 @@
     udq.parse <tok>*                      -> ast <tree> | err (extra tokens / invalid tree)
     udq.eval <T> <ctx>* | <tok>*          -> ok <vt> <name-hex>=<bits|u>,… | err | noparse
     udq.hist <n> <ev>*                    -> <per step values>           (see `UdqHist.lean`)
+    udq.tokenize <item-hex>*              -> ok <tok>* | err (unbalanced quotes) | ub (no `]`: past the end)
+                                             (`normalize_string_tokens` + `make_udq_tokens` of UDQDefine.cpp)
+    udq.vtype <T> <tok>*                  -> ok <var_type code> <tree> | err | typeerr | throw | unmodelled
+                                             (`parseUDQExpression` with the static type check; `T` = W|G|F)
+    udq.whist (; D <key-hex> <T> <tok>*)* (; S <ctx>*)*
+                                          -> per `S` step (joined by `;`) the `UDQState` content of every
+                                             DEFINEd quantity (joined by `/`) after `UDQConfig::eval`:
+                                             `<elem-hex>=<bits|u>,…` in well / group order, `<bits|u>` for
+                                             field quantities; `throw` ends the history
 
   ctx items  E=<bits>  W=a,b  G=a,b  M=<pat-hex>:a,b  F:<key-hex>=<bits>
              WV:<var-hex>:<well-hex>=<bits>,…   GV:…   US:<key-hex>=<bits>  UW:<var>:<w>=<bits>,…  UG:…
@@ -14,6 +23,8 @@
 -/
 import OpmVerif.Model.UdqEval
 import OpmVerif.Model.UdqHist
+import OpmVerif.Model.UdqType
+import OpmVerif.Model.UdqLex
 -- driver: prefix=udq handler=OpmVerif.Udq.handle
 
 namespace OpmVerif.Udq
@@ -183,6 +194,68 @@ def showSet (u : USet Float) : String :=
 def splitBar (args : List String) : List String × List String :=
   (args.takeWhile (· ≠ "|"), (args.dropWhile (· ≠ "|")).drop 1)
 
+/-! ### definedness histories through `UDQConfig::eval` + `UDQState` -/
+
+/-- what `UDQState::add` sees of an evaluated `UDQSet` -/
+def toRSet (u : USet Float) : Hist.RSet Float :=
+  ⟨match u.vt with | .well => .well | .group => .group | _ => .scalar, u.vals⟩
+
+structure WDef where
+  key : String
+  vt : VT
+  ast : Ast
+
+def splitSemi (args : List String) : List (List String) :=
+  let rec go (cur : List String) (acc : List (List String)) : List String → List (List String)
+    | [] => (cur.reverse :: acc).reverse
+    | ";" :: r => go [] (cur.reverse :: acc) r
+    | x :: r => go (x :: cur) acc r
+  go [] [] args
+
+/-- `eval_define` for one report step: input order, each result goes to the state at once -/
+def whistStep (defs : List WDef) (rc : RawCtx) (st : Hist.State Float) : Option (Hist.State Float) :=
+  defs.foldlM (fun st d =>
+    let rc' := { rc with udqScalars := st.scalars, udqWell := st.wells, udqGroup := st.groups }
+    match evalDefine (floatFns rc.eps) rc'.toCtx d.vt d.ast with
+    | .ok u => st.add d.key (toRSet u)
+    | .error _ => none) st
+
+def showOpt : Option Float → String
+  | some x => natHex16 x.toBits.toNat
+  | none => "u"
+
+def showState (defs : List WDef) (rc : RawCtx) (st : Hist.State Float) : String :=
+  "/".intercalate (defs.map fun d =>
+    match d.vt with
+    | .well => if rc.wells.isEmpty then "-" else
+        ",".intercalate (rc.wells.map fun w => strHex w ++ "=" ++ showOpt (st.elem .well d.key w))
+    | .group => if rc.groups.isEmpty then "-" else
+        ",".intercalate (rc.groups.map fun g => strHex g ++ "=" ++ showOpt (st.elem .group d.key g))
+    | _ => showOpt (st.scalar d.key))
+
+def runWhist : List (List String) → List WDef → Hist.State Float → List String → String
+  | [], _, _, out => ";".intercalate out.reverse
+  | [] :: rest, defs, st, out => runWhist rest defs st out
+  | ("D" :: key :: t :: toks) :: rest, defs, st, out =>
+    match hexStr key, parseVT t, toks.mapM parseTok with
+    | some k, some vt, some ts =>
+      match parse ts with
+      | .ast a =>
+        -- a re-DEFINE keeps the quantity's place in `input_index`
+        let defs' := if defs.any (·.key == k) then defs.map (fun d => if d.key == k then ⟨k, vt, a⟩ else d)
+                     else defs ++ [⟨k, vt, a⟩]
+        runWhist rest defs' st out
+      | _ => "noparse"
+    | _, _, _ => "bad-op"
+  | ("S" :: items) :: rest, defs, st, out =>
+    match items.foldlM addCtxItem ({} : RawCtx) with
+    | none => "bad-op"
+    | some rc =>
+      match whistStep defs rc st with
+      | none => ";".intercalate (("throw" :: out).reverse)
+      | some st' => runWhist rest defs st' (showState defs rc st' :: out)
+  | _ :: _, _, _, _ => "bad-op"
+
 def handle (op : String) (args : List String) : String :=
   match op with
   | "udq.parse" =>
@@ -209,6 +282,38 @@ def handle (op : String) (args : List String) : String :=
       | _, _, _ => "bad-op"
     | _ => "bad-op"
   | "udq.hist" => Hist.handleHist args
+  | "udq.tokenize" =>
+    match args.mapM hexStr with
+    | none => "bad-op"
+    | some items =>
+      match Lex.tokenize (items.map String.toList) with
+      | .unbalanced => "err"
+      | .pastEnd => "ub"
+      | .ok ts => "ok" ++ String.join (ts.map fun t =>
+          " " ++ (if t.ty = .number then "n:" ++ natHex16 (Lex.numberValue t.text).toBits.toNat
+                  else if t.ty = .ecl_expr then
+                    "e:" ++ strHex (String.ofList t.text) ++ ":" ++
+                      (if t.sel.isEmpty then "-" else ",".intercalate (t.sel.map fun x => strHex (String.ofList x)))
+                  else "s:" ++ strHex (String.ofList t.text)))
+  | "udq.vtype" =>
+    match args with
+    | t :: toks =>
+      let target : Option VarT := match t with
+        | "W" => some .well_var | "G" => some .group_var | "F" => some .field_var | _ => none
+      match target, toks.mapM parseTok with
+      | some tg, some ts =>
+        match parseTyped tg ts with
+        | .ast a vt => "ok " ++ toString vt.code ++ " " ++ showAst a
+        | .extra => "err"
+        | .invalid => "err"
+        | .typeError => "typeerr"
+        | .noType => "typeerr"
+        | .stop .throw => "throw"
+        | .stop .unmodelled => "unmodelled"
+        | .fuel => "fuel"
+      | _, _ => "bad-op"
+    | _ => "bad-op"
+  | "udq.whist" => runWhist (splitSemi args) [] Hist.State.empty []
   | _ => "bad-op"
 
 end OpmVerif.Udq
